@@ -16,6 +16,7 @@ package gate
 // return (never wall clock).
 
 import (
+	"context"
 	"encoding/json"
 	"fmt"
 	"runtime"
@@ -27,12 +28,14 @@ import (
 	"testing"
 	"time"
 
+	"connectrpc.com/connect"
 	"github.com/anishathalye/porcupine"
 	"pgregory.net/rapid"
 
 	liteconfig "go.minekube.com/gate/pkg/edition/java/lite/config"
 	"go.minekube.com/gate/pkg/edition/java/ping"
 	"go.minekube.com/gate/pkg/gate/config"
+	pb "go.minekube.com/gate/pkg/internal/api/gen/minekube/gate/v1"
 	"go.minekube.com/gate/pkg/internal/verifkit"
 	"go.minekube.com/gate/pkg/util/configutil"
 )
@@ -219,10 +222,13 @@ type c35In struct {
 	CandKey   string
 	CandClass string
 	Expect    string
+	API       bool // the compare-and-swap went through the API handler (ConfigHandlerImpl.ApplyConfig)
 }
 
 type c35Out struct {
-	Class   string // applied | unchanged | rejected | precondition_failed | observed | malformed:<..>
+	// Class: applied | unchanged | rejected | precondition_failed | observed | malformed:<..> |
+	// ok (API handler: applied or unchanged, the response does not say which)
+	Class   string
 	Version string
 	Key     string // snapshot/routes: observed content key
 }
@@ -239,7 +245,8 @@ func c35Step(state string, in c35In, out c35Out, ver map[string]string) (bool, s
 	acceptable := in.CandClass == "valid"
 	if mismatch {
 		if out.Class == "precondition_failed" {
-			return out.Version == ver[state], state
+			// (the API handler's error carries no version)
+			return in.API || out.Version == ver[state], state
 		}
 		// a candidate that could never be applied may also be refused as such
 		return !acceptable && out.Class == "rejected", state
@@ -248,9 +255,9 @@ func c35Step(state string, in c35In, out c35Out, ver map[string]string) (bool, s
 		return out.Class == "rejected", state
 	}
 	if in.CandKey == state {
-		return out.Class == "unchanged" && out.Version == ver[state], state
+		return (out.Class == "unchanged" || (in.API && out.Class == "ok")) && out.Version == ver[state], state
 	}
-	return out.Class == "applied" && out.Version != "" && out.Version == ver[in.CandKey], in.CandKey
+	return (out.Class == "applied" || (in.API && out.Class == "ok")) && out.Version != "" && out.Version == ver[in.CandKey], in.CandKey
 }
 
 func c35Classify(r LiveConfigResult) c35Out {
@@ -268,6 +275,27 @@ func c35Classify(r LiveConfigResult) c35Out {
 		o.Class = fmt.Sprintf("malformed:%+v", r)
 	}
 	return o
+}
+
+// c35RoutesPatch renders {"config":{"lite":{"routes":[...]}}} with the candidate's routes
+// in the canonical JSON form the API works on.
+func c35RoutesPatch(cand *config.Config) (string, error) {
+	full, err := canonicalConfigJSON(cand)
+	if err != nil {
+		return "", err
+	}
+	var doc map[string]any
+	if err := json.Unmarshal(full, &doc); err != nil {
+		return "", err
+	}
+	cfg, _ := doc["config"].(map[string]any)
+	lite, _ := cfg["lite"].(map[string]any)
+	routes, ok := lite["routes"]
+	if !ok {
+		return "", fmt.Errorf("candidate has no config.lite.routes in %s", full)
+	}
+	out, err := json.Marshal(map[string]any{"config": map[string]any{"lite": map[string]any{"routes": routes}}})
+	return string(out), err
 }
 
 // c35Versions is the observed content<->version relation.
@@ -357,7 +385,7 @@ func c35Scribble(c *config.Config) {
 // ---------------------------------------------------------------- sequential
 
 type c35Op struct {
-	Kind     string  `json:"kind"` // apply | cas | snapshot
+	Kind     string  `json:"kind"` // apply | cas | snapshot | routes | api (concurrent check: CAS through ConfigHandlerImpl.ApplyConfig)
 	Cand     c35Cand `json:"cand"`
 	Expect   string  `json:"expect,omitempty"` // fresh | stale1 | stale2 | stale3 | initial | garbage | empty | upper | mine
 	Scribble bool    `json:"scribble,omitempty"`
@@ -607,6 +635,7 @@ func c35RunConcOnce(c c35ConcCase, labels map[string]bool, nt *bool, winners *in
 		return verifkit.Fail("state:initial-snapshot", "initial snapshot [%s] err=%v, want [%s]", first.Key, err, init)
 	}
 	var clock atomic.Int64
+	handler := NewConfigHandler(g, "") // one API handler, as in a running gate
 	recs := make([][]c35Rec, len(c.Actors))
 	start := make(chan struct{})
 	var wg sync.WaitGroup
@@ -638,6 +667,38 @@ func c35RunConcOnce(c c35ConcCase, labels map[string]bool, nt *bool, winners *in
 					rec.ret = clock.Add(1)
 					rec.out = c35Out{Class: "observed", Key: k}
 					rec.keyOK = ok
+				case "api":
+					cand := c35Build(c.Init, op.Cand)
+					rec.in = c35In{Kind: "cas", API: true, CandKey: c35Key(op.Cand.Routes), CandClass: op.Cand.class()}
+					switch op.Expect {
+					case "initial", "fresh":
+						rec.in.Expect = first.Version
+					case "mine":
+						rec.in.Expect = mine
+					default:
+						rec.in.Expect = "0123456789abcdef0123456789abcdef0123456789abcdef0123456789abcdef"
+					}
+					// a JSON Merge Patch that replaces the Lite routes with the candidate's
+					patch, perr := c35RoutesPatch(cand)
+					if perr != nil {
+						rec.err = fmt.Errorf("encode candidate: %w", perr)
+						recs[a] = append(recs[a], rec)
+						continue
+					}
+					rec.call = clock.Add(1)
+					resp, aerr := handler.ApplyConfig(context.Background(), &pb.ApplyConfigRequest{IfMatch: rec.in.Expect, Input: &pb.ApplyConfigRequest_MergePatch{MergePatch: patch}})
+					rec.ret = clock.Add(1)
+					switch {
+					case aerr == nil:
+						rec.out = c35Out{Class: "ok", Version: resp.GetVersion()}
+						mine = resp.GetVersion()
+					case connect.CodeOf(aerr) == connect.CodeFailedPrecondition && strings.Contains(aerr.Error(), "version does not match"):
+						rec.out = c35Out{Class: "precondition_failed"}
+					case connect.CodeOf(aerr) == connect.CodeFailedPrecondition || connect.CodeOf(aerr) == connect.CodeInvalidArgument:
+						rec.out = c35Out{Class: "rejected"}
+					default:
+						rec.out = c35Out{Class: "malformed:api error " + aerr.Error()}
+					}
 				default:
 					cand := c35Build(c.Init, op.Cand)
 					rec.in.CandKey, rec.in.CandClass = c35Key(op.Cand.Routes), op.Cand.class()
@@ -746,7 +807,10 @@ func c35RunConcOnce(c c35ConcCase, labels map[string]bool, nt *bool, winners *in
 			}
 		default:
 			labels["outcome-"+r.out.Class] = true
-			if r.out.Class == "applied" || r.out.Class == "unchanged" {
+			if r.in.API {
+				labels["api-outcome-"+r.out.Class] = true
+			}
+			if r.out.Class == "applied" || r.out.Class == "unchanged" || r.out.Class == "ok" {
 				if v := vers.learn(r.in.CandKey, r.out.Version); v != nil {
 					v.Msg += "\n" + dump()
 					return verifkit.Result{V: v}
@@ -761,7 +825,7 @@ func c35RunConcOnce(c c35ConcCase, labels map[string]bool, nt *bool, winners *in
 	casFreshValid := 0
 	for _, ops := range c.Actors {
 		for _, op := range ops {
-			if op.Kind == "cas" && (op.Expect == "initial" || op.Expect == "fresh") && op.Cand.class() == "valid" && c35Key(op.Cand.Routes) != init {
+			if (op.Kind == "cas" || op.Kind == "api") && (op.Expect == "initial" || op.Expect == "fresh") && op.Cand.class() == "valid" && c35Key(op.Cand.Routes) != init {
 				casFreshValid++
 				break
 			}
@@ -789,7 +853,7 @@ func c35RunConcOnce(c c35ConcCase, labels map[string]bool, nt *bool, winners *in
 		key := "history:not-linearizable"
 		applied := 0
 		for _, r := range all {
-			if r.in.Kind == "cas" && r.in.Expect == first.Version && r.out.Class == "applied" && r.in.CandKey != init {
+			if r.in.Kind == "cas" && r.in.Expect == first.Version && (r.out.Class == "applied" || r.out.Class == "ok") && r.in.CandKey != init {
 				applied++
 			}
 		}
@@ -882,6 +946,12 @@ func c35GenConc(t *rapid.T) c35ConcCase {
 			var op c35Op
 			if i == 0 && a < racers {
 				op = c35Op{Kind: "cas", Expect: "initial", Cand: c35Cand{Routes: append([]int{}, recent[rapid.IntRange(1, len(recent)-1).Draw(t, "raceContent")]...)}}
+				if rapid.IntRange(0, 2).Draw(t, "viaAPI") == 0 {
+					op.Kind = "api"
+				}
+			} else if rapid.IntRange(0, 7).Draw(t, "apiOp") == 0 {
+				op = c35Op{Kind: "api", Expect: rapid.SampledFrom([]string{"initial", "mine", "mine", "garbage"}).Draw(t, "apiExpect"),
+					Cand: c35Cand{Routes: append([]int{}, recent[rapid.IntRange(0, len(recent)-1).Draw(t, "apiContent")]...)}}
 			} else {
 				op.Kind = rapid.SampledFrom([]string{"apply", "cas", "cas", "snapshot", "routes"}).Draw(t, "kind")
 				op.Cand = c35Cand{Routes: []int{}}
@@ -893,7 +963,7 @@ func c35GenConc(t *rapid.T) c35ConcCase {
 				}
 			}
 			op.Yield = rapid.IntRange(0, 3).Draw(t, "yield")
-			op.Scribble = op.Kind != "snapshot" && op.Kind != "routes" && rapid.IntRange(0, 3).Draw(t, "scribble") == 0
+			op.Scribble = op.Kind != "snapshot" && op.Kind != "routes" && op.Kind != "api" && rapid.IntRange(0, 3).Draw(t, "scribble") == 0
 			ops = append(ops, op)
 		}
 		c.Actors = append(c.Actors, ops)
@@ -905,7 +975,7 @@ func c35GenConc(t *rapid.T) c35ConcCase {
 
 const (
 	c35RuleSeq  = "initial Lite routes from a pool of 6 valid routes; histories of 1..12 ops ApplyLiveConfig / ApplyLiveConfigIfVersion(fresh|older (1-3 versions back)|initial|garbage|empty|upper-cased version) / ConfigSnapshot with candidates {valid route edit, unchanged or earlier content, invalid route/no routes, non-route edit (bind, debug, onlineMode, servers, health, noAutoReload, connect name), lite disabled, invalid bind, nil}; callers scribble over candidates/snapshots afterwards; after every op snapshot, version and Java().Config() routes must equal the sequential content model and content<->version must stay a bijection; non-trivial = history contains an applied, a rejected and a precondition-failed outcome"
-	c35RuleConc = "2..6 appliers released from a barrier, 1..3 ops each (apply / CAS on the barrier version, on the version last seen by the actor, garbage, empty / snapshot / Java().Config() read), 1..3 repetitions, GOMAXPROCS varied, Gosched noise; recorded call/return history (logical clock) + quiescent final reads checked for linearizability against the sequential model with porcupine, under the race detector; non-trivial = >=2 CAS appliers holding the same fresh version with valid differing candidates (exactly one may win)"
+	c35RuleConc = "2..6 appliers released from a barrier, 1..3 ops each (apply / CAS on the barrier version, on the version last seen by the actor, garbage, empty - directly or through the API handler ConfigHandlerImpl.ApplyConfig with if_match / snapshot / Java().Config() read), 1..3 repetitions, GOMAXPROCS varied, Gosched noise; recorded call/return history (logical clock) + quiescent final reads checked for linearizability against the sequential model with porcupine, under the race detector; non-trivial = >=2 CAS appliers holding the same fresh version with valid differing candidates (exactly one may win)"
 )
 
 func TestVerif_C35(t *testing.T) {
